@@ -12,6 +12,9 @@ Monitors (all on the real library under ASan/UBSan):
            significance 0.05 per (type, regime) must lie in [1 %, 20 %]
            (widened by a 99.999 % binomial interval).
  outlier   one standard displaced by 100 sigma: rejected in >= 90 %.
+ twin      the same straight-line noise law given on the calibration grid and
+           on its own 2..4-knot grid (interpolated by the library): the two
+           weighted solves of the same noisy data must agree.
 """
 import math
 import os
@@ -31,6 +34,10 @@ ALPHA = 0.05
 REGIMES = ["floor", "mixed", "tracking"]
 
 
+def overdetermined(sc):
+    return all(a["equations"] >= a["unknowns"] for a in sc.classify(0)[0])
+
+
 def scenario(rng, ctype, r, c, F, leak_samples=0):
     for _ in range(10):
         sc = calgen.Scenario(ctype, r, c, F, rng, form="m")
@@ -41,7 +48,10 @@ def scenario(rng, ctype, r, c, F, leak_samples=0):
                 s.must_full = True
         sc.choose_entries()
         ok, kappa = sc.well_determined(300.0)
-        if ok:
+        # the property speaks of over-determined data: every system needs at
+        # least one equation more than it has free terms (with none to spare
+        # the library deliberately reports a p-value of zero)
+        if ok and overdetermined(sc):
             return sc, kappa
     return None, None
 
@@ -122,7 +132,7 @@ def work_exact(chunk_id, payload):
             # measurement-error modelling with 16-term types needs complete S
             # matrices: keep only the standards that connect every port
             sc.stds = [st for st in sc.stds if st.n == sc.p]
-            if not sc.well_determined(300.0)[0]:
+            if not (sc.well_determined(300.0)[0] and overdetermined(sc)):
                 cnt["skipped_16term_partial"] = cnt.get(
                     "skipped_16term_partial", 0) + 1
                 continue
@@ -243,7 +253,7 @@ def work_rates(chunk_id, payload):
             continue
         if ctype in ("T16", "U16"):
             sc.stds = [st for st in sc.stds if st.n == sc.p]
-            if not sc.well_determined(300.0)[0]:
+            if not (sc.well_determined(300.0)[0] and overdetermined(sc)):
                 continue
         if regime == "floor":
             nf, tr = 10 ** rng.uniform(-5, -3), None
@@ -325,6 +335,129 @@ def work_rates(chunk_id, payload):
     return part
 
 
+def work_twin(chunk_id, payload):
+    """the same noise law sigma(f) = a + b f given twice: sampled on the
+    calibration grid (no interpolation needed) and on its own coarser grid of
+    2..4 knots that spans the band but shares no point with it.  Any spline
+    reproduces a straight line, so both descriptions mean the same sigma at
+    every calibration frequency and the two weighted solves of the same noisy
+    data must agree."""
+    seed, n, binary, workroot = payload
+    rng = np.random.default_rng([seed, chunk_id, 3838])
+    part = dict(evaluations=0, counters={}, maxima={}, distinct=set(),
+                samples=[], violations=[], inconclusive=[], harness_errors=[])
+    cnt = part["counters"]
+    cases, meta = [], {}
+    for k in range(n):
+        ctype = physics.TYPES[(chunk_id + k) % 8]
+        p = int(rng.choice([1, 2, 2]))
+        F = int(rng.choice([3, 4, 6]))
+        sc, kappa = scenario(rng, ctype, p, p, F, leak_samples=3)
+        if sc is None:
+            continue
+        if ctype in ("T16", "U16"):
+            sc.stds = [st for st in sc.stds if st.n == sc.p]
+            if not (sc.well_determined(300.0)[0] and overdetermined(sc)):
+                continue
+        fr = np.array(sc.freqs, dtype=float)
+        lo, hi = fr[0], fr[-1]
+        K = int(rng.choice([2, 3, 4]))
+        g0, g1 = lo * rng.uniform(0.5, 0.95), hi * rng.uniform(1.05, 1.5)
+        knots = np.array(sorted([g0, g1] + list(
+            rng.uniform(lo, hi, K - 2))))
+        # straight lines through positive end values; the two laws have
+        # different slopes (one may be flat)
+        def line(v0, v1):
+            return lambda f: v0 + (v1 - v0) * (f - g0) / (g1 - g0)
+        n0 = 10 ** rng.uniform(-5, -3.5)
+        nfl = line(n0, n0 if rng.random() < 0.5 else
+                   n0 * 10 ** rng.uniform(-0.7, 0.7))
+        t0 = 10 ** rng.uniform(-3.5, -2)
+        trl = line(t0, t0 * 10 ** (rng.choice([-1, 1]) * rng.uniform(0.5, 1.0)))
+        for st in sc.stds:
+            st.noise = []
+            for f in range(F):
+                M = sc.enet[f].measure(st.S_full(f, sc.p))
+                sig = np.sqrt(nfl(fr[f]) ** 2 + trl(fr[f]) ** 2 * np.abs(M) ** 2)
+                st.noise.append(sig * (rng.standard_normal(M.shape) + 1j *
+                                       rng.standard_normal(M.shape)) / np.sqrt(2))
+        s = Script()
+        s.op("vc=vnacal_create")
+        s.rvec("freq", sc.freqs)
+        s.rvec("an", [nfl(x) for x in fr])
+        s.rvec("at", [trl(x) for x in fr])
+        s.rvec("bf", list(knots))
+        s.rvec("bn", [nfl(x) for x in knots])
+        s.rvec("bt", [trl(x) for x in knots])
+        argA = "%s %d @an @at" % ("NULL" if rng.random() < 0.5 else "@freq", F)
+        argB = "@bf %d @bn @bt" % K
+        uid = [0]
+        La = emit_cal(s, sc, "va", "a", m_error=[argA], uid=uid, tag="1")
+        Lb = emit_cal(s, sc, "vb", "b", m_error=[argB], uid=uid, tag="2")
+        duts = sc.rand_dut()
+        s.op("vd=vnadata_alloc")
+        out = {}
+        for nm in ("a", "b"):
+            _, out[nm] = sc.emit_apply(s, duts, nm, form="m", ci="$ci_" + nm,
+                                       tag="q" + nm)
+        cid = "t%d_%d" % (chunk_id, k)
+        cases.append((cid, s.text()))
+        meta[cid] = (sc, kappa, La, Lb, out, dict(knots=K, F=F))
+    wd = os.path.join(workroot, "wt%d" % chunk_id)
+    results = R.run_cases(binary, cases, wd, timeout=1800, watchdog=60)
+    for cid, text in cases:
+        res = results[cid]
+        sc, kappa, La, Lb, out, info = meta[cid]
+        v, inc = R.standard_violations(res, text, PROP)
+        part["violations"] += v
+        part["inconclusive"] += inc
+        if res.status != "ok":
+            continue
+
+        def bad(what, desc):
+            part["violations"].append(dict(
+                key="%s:twin:%s:%s" % (PROP, what, sc.ctype),
+                desc="%s %dx%d F=%d %s: %s" % (sc.ctype, sc.r, sc.c, sc.F,
+                                               info, desc),
+                script=text))
+        if not all((res.ev(ln) or {}).get("ret") == 0
+                   for L_ in (La, Lb) for ln in L_["add"]):
+            cnt["twin_add_refused"] = cnt.get("twin_add_refused", 0) + 1
+            continue
+        ea, eb = res.ev(La["solve"]), res.ev(Lb["solve"])
+        if ea is None or eb is None or "ret" not in ea or "ret" not in eb:
+            continue
+        part["evaluations"] += 1
+        cnt["twin_pairs"] = cnt.get("twin_pairs", 0) + 1
+        part["distinct"].add(("twin", sc.ctype, sc.p, info["knots"], info["F"]))
+        if ea["ret"] != eb["ret"]:
+            bad("verdict-differs", "the same noise law given on the "
+                "calibration grid and on its own %d-knot grid: solve returned "
+                "%s (%s) vs %s (%s)" % (info["knots"], ea["ret"],
+                                        ea.get("errno"), eb["ret"],
+                                        eb.get("errno")))
+            continue
+        if ea["ret"] != 0:
+            cnt["twin_both_rejected"] = cnt.get("twin_both_rejected", 0) + 1
+            continue
+        Sa, Sb = get_S(res, out["a"], sc.p), get_S(res, out["b"], sc.p)
+        if Sa is None or Sb is None:
+            bad("apply-failed", "apply after a weighted solve failed")
+            continue
+        d = max(float(np.max(np.abs(a - b))) if np.all(np.isfinite(a)) and
+                np.all(np.isfinite(b)) else float("inf")
+                for a, b in zip(Sa, Sb))
+        tol = 1e-8 * (1 + kappa)
+        part["maxima"]["twin_max_diff_over_tol"] = max(
+            part["maxima"].get("twin_max_diff_over_tol", 0.0), d / tol)
+        if not (d <= tol):
+            bad("interpolated-noise-differs", "the same straight-line noise "
+                "law given on the calibration grid and on its own %d-knot "
+                "grid gives calibrations that correct a device differently "
+                "by %.3g (tolerance %.3g)" % (info["knots"], d, tol))
+    return part
+
+
 def binom_interval(p, n, z=4.42):
     """half-width of a ~99.999 % normal-approximation interval"""
     return z * math.sqrt(max(p * (1 - p), 1e-12) / max(n, 1))
@@ -336,7 +469,7 @@ def main():
     quick = chk.tier == "quick"
     n_exact = int((240 if quick else 6000) * chk.args.scale)
     n_rate = int((8 * 3 * 150 if quick else 8 * 3 * 1500) * chk.args.scale)
-    n_out = int((8 * 3 * 48 if quick else 8 * 3 * 300) * chk.args.scale)
+    n_out = int((8 * 3 * 64 if quick else 8 * 3 * 300) * chk.args.scale)
     nch = 16 if quick else 48
     for part in R.pmap(work_exact, [(chk.seed, max(1, n_exact // nch), binary,
                                     chk.workroot) for _ in range(nch)]):
@@ -350,6 +483,10 @@ def main():
     per = max(24, (n_out // nch) // 24 * 24)
     for part in R.pmap(work_rates, [(chk.seed, per, binary, chk.workroot, True)
                                     for _ in range(nch)]):
+        chk.merge(part)
+    n_twin = int((160 if quick else 4000) * chk.args.scale)
+    for part in R.pmap(work_twin, [(chk.seed, max(1, n_twin // nch), binary,
+                                   chk.workroot) for _ in range(nch)]):
         chk.merge(part)
     rates = {}
     for k in sorted(chk.counters):
@@ -395,7 +532,9 @@ def main():
              "enabled-then-disabled; rates: single-frequency scenarios with "
              "complex Gaussian noise E|n|^2 = nf^2 + tr^2 |m|^2 per (type, "
              "regime) cell at significance 0.05; outlier: one standard moved "
-             "by 100 sigma; distinct = distinct (sub-check, type, shape, form, "
+             "by 100 sigma; twin: F = 3..6, noise law nf(f), tr(f) linear in f "
+             "with different slopes, given on the calibration grid and on a "
+             "2..4-knot grid of its own; distinct = distinct (sub-check, type, shape, form, "
              "grid / regime) tuples",
         min_events=50,
         assumptions=["rate clauses are statistical: bounds [alpha/5, 4 alpha] "
